@@ -758,7 +758,7 @@ func TestVerifC14Conc(t *testing.T) {
 type c14DLEvent struct {
 	Op      string `json:"op"` // SetDeadline | SetReadDeadline | SetWriteDeadline | Read | ReadRet | Write
 	AtMs    int64  `json:"at_ms"`
-	DeltaMs int64  `json:"delta_ms"` // deadline - now (deadline calls); bytes (ReadRet / Write)
+	DeltaMs int64  `json:"delta_ms"` // deadline - now (deadline calls); read deadline in force - now (Read); bytes (ReadRet / Write)
 	Parked  bool   `json:"parked"`   // a Read call was in progress when this call was made
 	Zero    bool   `json:"zero,omitempty"`
 }
@@ -770,6 +770,13 @@ type c14DLConn struct {
 	events  []c14DLEvent
 	reading int
 	writes  int
+	rdl     time.Time // the read deadline in force (last SetDeadline / SetReadDeadline)
+}
+
+func (c *c14DLConn) setRDL(t time.Time) {
+	c.mu.Lock()
+	c.rdl = t
+	c.mu.Unlock()
 }
 
 func (c *c14DLConn) rec(op string, delta int64, zero bool) {
@@ -779,10 +786,12 @@ func (c *c14DLConn) rec(op string, delta int64, zero bool) {
 }
 func (c *c14DLConn) SetDeadline(t time.Time) error {
 	c.rec("SetDeadline", time.Until(t).Milliseconds(), t.IsZero())
+	c.setRDL(t)
 	return c.Conn.SetDeadline(t)
 }
 func (c *c14DLConn) SetReadDeadline(t time.Time) error {
 	c.rec("SetReadDeadline", time.Until(t).Milliseconds(), t.IsZero())
+	c.setRDL(t)
 	return c.Conn.SetReadDeadline(t)
 }
 func (c *c14DLConn) SetWriteDeadline(t time.Time) error {
@@ -790,7 +799,11 @@ func (c *c14DLConn) SetWriteDeadline(t time.Time) error {
 	return c.Conn.SetWriteDeadline(t)
 }
 func (c *c14DLConn) Read(b []byte) (int, error) {
-	c.rec("Read", 0, false)
+	// a Read call: delta = how far ahead the read deadline in force is at the moment of the call (zero: none in force)
+	c.mu.Lock()
+	rdl := c.rdl
+	c.mu.Unlock()
+	c.rec("Read", time.Until(rdl).Milliseconds(), rdl.IsZero())
 	c.mu.Lock()
 	c.reading++
 	c.mu.Unlock()
@@ -816,11 +829,13 @@ func (c *c14DLConn) state() (reading, writes, nev int) {
 }
 
 type c14DLLine struct {
-	K        string `json:"k"`         // "dev" (timeout of the device's own client) | "scaled"
-	ScaleMs  int64  `json:"scale_ms"`  // timeout of a "scaled" client
-	Writes   int    `json:"writes"`    // messages written while the reader is silent ("dev")
-	EveryMs  int64  `json:"every_ms"`  // pause between writes ("scaled")
-	BudgetMs int64  `json:"budget_ms"` // how long a "scaled" run keeps writing at most
+	K        string  `json:"k"`         // "dev" (timeout of the device's own client) | "scaled"
+	ScaleMs  int64   `json:"scale_ms"`  // timeout of a "scaled" client
+	Writes   int     `json:"writes"`    // messages written while the reader is silent ("dev")
+	EveryMs  int64   `json:"every_ms"`  // pause between writes ("scaled")
+	BudgetMs int64   `json:"budget_ms"` // how long a "scaled" run keeps writing at most
+	PauseMs  int64   `json:"pause_ms"`  // "dev": before the silence the reader lets this much time pass and sends a KeepAlive
+	AtMs     []int64 `json:"at_ms"`     // "gaps": the reader sends a KeepAlive at these times (after the first exchange); no silence
 }
 
 type c14DLAnswer struct {
@@ -828,9 +843,11 @@ type c14DLAnswer struct {
 	Consts     *c14Consts   `json:"consts,omitempty"`
 	Mark       int          `json:"mark"` // events[mark:] were recorded after the reader went silent with the read side parked
 	Events     []c14DLEvent `json:"events"`
-	Written    int          `json:"written"`    // writes that reached the connection after the mark
+	Written    int          `json:"written"` // writes that reached the connection after the mark
 	SilentAtMs int64        `json:"silent_at_ms"`
-	DroppedMs  int64        `json:"dropped_ms"` // when Connect returned (-1: it had not when the run ended)
+	DroppedMs  int64        `json:"dropped_ms"`           // when Connect returned (-1: it had not when the run ended)
+	SentAtMs   []int64      `json:"sent_at_ms,omitempty"` // when the reader's KeepAlives were written
+	UpAtEnd    bool         `json:"up_at_end"`            // "gaps": a full exchange succeeded after the last KeepAlive
 	Note       string       `json:"note,omitempty"`
 }
 
@@ -897,6 +914,64 @@ func TestVerifC14Deadline(t *testing.T) {
 		// operational: one full exchange
 		if err := send(10 * time.Second); err != nil {
 			ans.Note = "exchange before the silence failed: " + err.Error()
+		}
+		// a KeepAlive from the reader (the client acknowledges it); returns once the ack was written and the read side is parked again
+		keepAlive := func() {
+			rd.mu.Lock()
+			rc := rd.conn
+			rd.mu.Unlock()
+			_, before, _ := conn.state()
+			ans.SentAtMs = append(ans.SentAtMs, time.Since(conn.t0).Milliseconds())
+			if c14WriteFrame(rc, 1, 62, 7000+uint32(len(ans.SentAtMs)), nil) != nil {
+				ans.Note += " reader could not write a KeepAlive;"
+				return
+			}
+			by := time.Now().Add(3 * time.Second)
+			for time.Now().Before(by) {
+				select {
+				case <-connDone:
+					return
+				default:
+				}
+				if r, n, _ := conn.state(); n > before && r > 0 {
+					return
+				}
+				time.Sleep(time.Millisecond)
+			}
+		}
+		if dl.K == "gaps" {
+			base := time.Now()
+		gaps:
+			for _, at := range dl.AtMs {
+				select {
+				case <-connDone:
+					break gaps
+				case <-time.After(time.Until(base.Add(time.Duration(at) * time.Millisecond))):
+				}
+				keepAlive()
+			}
+			select {
+			case <-connDone:
+				ans.DroppedMs = time.Since(conn.t0).Milliseconds()
+			default:
+				ans.UpAtEnd = send(5*time.Second) == nil
+			}
+			go func() { _ = cl.Close() }()
+			raw.Close()
+			<-connDone
+			rd.ln.Close()
+			conn.mu.Lock()
+			ans.Events = append([]c14DLEvent{}, conn.events...)
+			conn.mu.Unlock()
+			ans.Mark = len(ans.Events)
+			b, _ := json.Marshal(ans)
+			w.Write(b)
+			w.WriteByte('\n')
+			continue
+		}
+		if dl.K == "dev" && dl.PauseMs > 0 {
+			time.Sleep(time.Duration(dl.PauseMs) * time.Millisecond)
+			keepAlive()
 		}
 		// the reader goes silent (keeps draining); wait until the client's read side is parked
 		rd.mu.Lock()
